@@ -11,5 +11,5 @@ CONSTANTS
   LateConn = {@LATE@}
   TimerEp = "@TIMEREP@"
 VIEW view
-INVARIANTS TypeOK PrefixInv NoStall EofInv ClosedStreamInv CountInv TimerOnlyWhenIdle NonceInv @EXTRAINV@
+INVARIANTS TypeOK PrefixInv NoStall EofInv ClosedStreamInv CountInv TimerOnlyWhenIdle NonceInv ClosedHasNoStreams @EXTRAINV@
 CHECK_DEADLOCK FALSE
